@@ -924,6 +924,43 @@ def rule_lut(rep: Report, stl: Stl, w: int = 64) -> None:
                 lambda a, b, d: ('set_carry_small_table', (a * b) >> 4), None)
     check_table('hex.mul(high nibble + 1)', ('hex.mul.init', 0), 2, 'stl.fj', 0, 1, lambda a, b: ('hex.mul.dst', dbit + 8),
                 lambda a, b, d: ('set_carry_small_table', ((a * b) >> 4) + 1), None)
+    # the one-bit shift switches: entry i of `rep(16, i) stl.fj FLIP, JUMP` hands the bit that falls out of the hex to the neighbour
+    # (shl: bit 3 -> bit 0 of `next`; shr: bit 0 -> bit 3 of `next`) and continues at the clean-table entry for i ^ shifted(i)
+    for nm_, key_, out_bit, in_bit, shifted in (('hex.shifts.shl_bit_once', ('hex.shifts.shl_bit_once', 2), 8, 0, lambda i: (i << 1) & 0xf),
+                                                ('hex.shifts.shr_bit_once', ('hex.shifts.shr_bit_once', 2), 1, 3, lambda i: i >> 1)):
+        m_ = stl.macros.get(key_)
+        if m_ is None:
+            raise AnalysisError(f'{rule}: macro {key_} missing')
+        reps16 = _reps(m_, 16)
+        site_ = f'{m_.file}:{m_.line} {m_.name}'
+        if len(reps16) != 1 or reps16[0][3] != 'stl.fj' or len(reps16[0][4]) != 2:
+            rep.fail(rule, f'{nm_}:switch', f'{len(reps16)} rep(16) stl.fj tables', site_, expected='one rep(16, i) stl.fj table')
+            continue
+        op_ = reps16[0]
+        # the label the table continues at: the one in front of the clean-table call
+        clean_lab = None
+        for i_, st_ in enumerate(m_.body[:-1]):
+            if st_[0] == 'label' and m_.body[i_ + 1][0] == 'call' and m_.body[i_ + 1][1].endswith('clean_table_entry__table'):
+                clean_lab = st_[1].split('.')[-1]
+        bad_ = []
+        for i in range(16):
+            env_ = dict(base)
+            env_[op_[2]] = i
+            for q_ in m_.params:
+                env_[q_] = {q_: 1}
+            try:
+                gf, gj = ev(op_[4][0], env_), ev(op_[4][1], env_)
+            except (NeedConcrete, OpaqueValue) as ex_:
+                bad_.append(f'entry {i}: not an assembly-time constant ({ex_})')
+                break
+            want_f = {m_.params[1]: 1, '': base['dbit'] + in_bit} if i & out_bit else {'': 0}
+            want_j = {clean_lab or '?': 1, '': (i ^ shifted(i)) * dw}
+            if _lin_key(gf) != _lin_key(want_f):
+                bad_.append(f'entry {i}: flips {dict(gf)}, documented {want_f}')
+            if _lin_key(gj) != _lin_key(want_j):
+                bad_.append(f'entry {i}: continues at {dict(gj)}, documented {want_j}')
+        rep.check(not bad_, rule, f'{nm_}:switch', bad_[0] if bad_ else 'all 16 entries: carry bit to the neighbour, then clean entry i ^ shifted(i)', site_,
+                  expected='{next(1bit), dst(1hex)} = dst shifted by one bit')
     # wflip_macro places flip value at tables.res + w: (value * dw) flips the data bits of the result hex
     wm = stl.macros.get(('stl.wflip_macro', 3))
     ok = wm is not None and [op[0] for op in wm.body] == ['wflip'] and wm.params == ['dst', 'val', 'jmp_addr']
